@@ -249,7 +249,7 @@ def canon(o, ctx, depth=0):
             return ["NT", "unreadable:" + type(e).__name__]
     if isinstance(o, t["NTS"]):
         try:
-            return ["NT", _py(o.tolist()), list(o.batch_size)]
+            return ["NT", _py(o.tolist()), list(o.batch_size), "stack"]
         except Exception as e:  # noqa: BLE001
             return ["NT", "unreadable:" + type(e).__name__]
     if _is_tc(o):
@@ -964,7 +964,7 @@ def invoke(case, side):
         mode, name = case["mode"], case["name"]
         recipe = case.get("recipe")
         if recipe:
-            res = run_recipe(recipe, case, target, args, kwargs, mat, tmp)
+            res = run_recipe(recipe, case, target, args, kwargs, mat, tmp, side)
         elif mode == "call":
             if side == "td" and not outer and inspect.ismethod(getattr(t["TD"], name, None)) and type(target) is not t["TD"]:
                 # constructors (classmethods): the reference is what the underlying container's class gives, or, where that
@@ -1020,7 +1020,7 @@ def invoke(case, side):
     return obs
 
 
-def run_recipe(recipe, case, target, args, kwargs, mat, tmp):
+def run_recipe(recipe, case, target, args, kwargs, mat, tmp, side):
     """multi-step public-API scenarios (serialisation round trips) expressed once for both sides"""
     t = T()
     name = case["name"]
@@ -1029,10 +1029,10 @@ def run_recipe(recipe, case, target, args, kwargs, mat, tmp):
         tmp.append(d)
         saved = target.memmap(d)
         if name == "load_memmap_":
-            fresh = subject_for(dict(case, recipe=None), "tc" if _is_tc(target) else "td", 3)[0]
+            fresh = subject_for(dict(case, recipe=None), side, 3)[0]
             return fresh.load_memmap_(d)
         if name == "load_":
-            fresh = subject_for(dict(case, recipe=None), "tc" if _is_tc(target) else "td", 3)[0]
+            fresh = subject_for(dict(case, recipe=None), side, 3)[0]
             return fresh.load_(d)
         if name == "load":
             return target.load(d)
@@ -1041,7 +1041,7 @@ def run_recipe(recipe, case, target, args, kwargs, mat, tmp):
         return saved
     if recipe == "state_dict":
         sd = target.state_dict()
-        fresh = subject_for(dict(case, recipe=None), "tc" if _is_tc(target) else "td", 3)[0]
+        fresh = subject_for(dict(case, recipe=None), side, 3)[0]
         return fresh.load_state_dict(sd)
     if recipe == "consolidated":
         d = tempfile.mkdtemp(prefix="c15-")
@@ -1067,6 +1067,9 @@ def wrap_problems(tc_c, td_c, cls, fields, path="result", depth=0):
     if not isinstance(td_c, list) or not td_c:
         return out
     tag = td_c[0]
+    if tag in ("NT", "T", "PY") and isinstance(tc_c, list) and tc_c and tc_c[0] == "TC" and tc_c[1] == cls:
+        out.append(f"{path}: the tensordict returns a value that is not a tensordict ({tag}), the tensorclass returns it wrapped as {cls}")
+        return out
     if tag == "REF":
         if (td_c[1].startswith("ARG") or td_c[1] == "SELF") and isinstance(tc_c, list) and tc_c and tc_c[0] == "TC" and tc_c[1] == cls:
             # an input passed through may come back wrapped in the class; where the tensordict returns itself the
@@ -1279,6 +1282,8 @@ def judge(case, o_tc, o_td, o_td2):
     if w:
         probs += w
         flags.append("wrap")
+        if any("not a tensordict" in x for x in w):
+            flags.append("nontensor-wrapped")
     # (3) survival of non-tensor fields
     if not outer and case["name"] in SURVIVE:
         s = nt_survives(res, o_tc.get("nt_before"))
@@ -1310,6 +1315,8 @@ def _ratom(c):
         return ["td", [], c[1] == "KWout"] if c[1] == "KWout" else "other"
     if c[0] == "TD" and len(c) == 7:
         return ["td", sorted(k for k, _ in c[6]), False]
+    if c[0] == "NT" and len(c) == 4:
+        return ["td", [], False]      # a NonTensorStack is a (lazy) TensorDictBase without keys of its own
     if c == ["PY", "None"]:
         return "none"
     return "other"
@@ -1329,6 +1336,8 @@ def _tatom(c, cls, same_td=None):
         return ["wrapped", ks, sorted([k, "none" if v == ["PY", "None"] else "val"] for k, v in c[3]), same_td]
     if c[0] == "TD" and len(c) == 7:
         return ["bare", sorted(k for k, _ in c[6])]
+    if c[0] == "NT" and len(c) == 4:
+        return ["bare", []]
     if c == ["PY", "None"]:
         return "none"
     return "other"
@@ -1338,6 +1347,8 @@ def abstract_pair(case, o_tc, o_td):
     """(what the tensordict returned, what the tensorclass returned) in the vocabulary of Model/C15_TCWrap.v"""
     if case.get("embed") or case.get("recipe") or case["mode"] not in ("call", "attr", "op"):
         return None
+    if case["name"] in ("stack", "cat", "lazy_stack", "maybe_dense_stack") and '"tc"' in json.dumps(case.get("args", [])):
+        return None      # given tensorclass inputs the inner call already returns a tensorclass: not what the reference returned
     if o_td.get("status") != "ok" or o_td.get("instance_raises"):
         return None
     cls = "C15" + case["cls"]
